@@ -1,7 +1,7 @@
 (* C20  TODO markers flag exactly the declarations that need manual attention (marker discipline of the generator). *)
 From Coq Require Import List String Ascii ZArith. Import ListNotations.
 From Coq Require Import List Bool.
-From SV Require Import Lib.Str Gen.Tables Model.Types Model.Naming Model.Api Model.Back Spec.Markers Proofs.BackProofs Proofs.MarkerProofs.
+From SV Require Import Lib.Str Gen.Tables Model.Types Model.Naming Model.Api Model.Back Spec.Markers Proofs.BackProofs Proofs.MarkerProofs Proofs.ClassMarkerProofs.
 
 (* flushing prints the pending markers and leaves the pending set empty *)
 Theorem C20_flush_clears : forall indent s x s', create_todo_msg indent s = Ok (x, s') -> g_todos s' = [].
@@ -66,6 +66,26 @@ Theorem C20_attribute_markers : forall classes rmap nc ats inner acc names s lin
   class_attrs classes rmap nc ats inner acc names s = Ok ((lines, names'), s') -> g_todos s = [] ->
   g_todos s' = [] /\ exists new, lines = acc ++ new /\ Forall2 (attr_line nc inner) (filter attr_rendered ats) new.
 Proof. exact class_attrs_markers. Qed.
+(* the class header, entered with nothing pending: the first block carries the markers of the constructor's parameters and of the
+   bounds of the type parameters, the second block is "multiple_inheritance" exactly when the sub clause names two or more
+   classes - whatever attributes, nested classes, methods and inlined ancestors raise in between - and nothing stays pending *)
+Theorem C20_class_header_markers : forall classes rmap nc fu c indent rx s x s',
+  class_string classes rmap nc (S fu) c indent rx s = Ok (x, s') ->
+  (if negb rx then shorter_reexport (c_name c) (c_reexported_by c) s else None) = None ->
+  clean s ->
+  exists Lsig variance ctor_info body,
+    NoDup Lsig /\ covers (class_sig_marks c) Lsig /\ clean s' /\
+    x = sds_docstring nc (d_desc (c_doc c)) (d_examples (c_doc c))
+                      (Some (match c_ctor c with Some k => f_params k | None => [] end)) None indent ++
+        ((match fst (emit_name nc true (c_name c)) with None => [] | Some n => indent ++ name_annotation n ++ NL end) ++ indent ++
+         todo_text indent Lsig ++ todo_text indent (class_inheritance_marks c) ++
+         K"class " ++ snd (emit_name nc true (c_name c)) ++ variance ++ ctor_info ++
+         (match class_super_names c with [] => [] | _ => K" sub " ++ join (K", ") (class_super_names c) end)) ++ body.
+Proof. exact class_header_markers. Qed.
+(* no declaration of a class body leaves a marker behind for the next one *)
+Theorem C20_class_leaves_nothing_pending : forall classes rmap nc fuel c indent rx s x s',
+  class_string classes rmap nc fuel c indent rx s = Ok (x, s') -> clean s -> clean s'.
+Proof. exact class_string_clean. Qed.
 (* the specification is not empty: a tuple of a two-argument set and an unknown *)
 Example C20_markers_example :
   tmarks (TTuple [TSet [TNamed (K"int") (K"builtins.int"); TNamed (K"str") (K"builtins.str")]; TUnknown]) =
@@ -89,3 +109,5 @@ Print Assumptions C20_property_markers.
 Print Assumptions C20_attribute_markers.
 Print Assumptions C20_markers_example.
 Print Assumptions C20_model_raises_exactly_the_source_keys.
+Print Assumptions C20_class_header_markers.
+Print Assumptions C20_class_leaves_nothing_pending.
